@@ -59,6 +59,10 @@ FlipBit(b, i, k)   == [j \in 1..Len(b) |->
 
 IsPrefixOf(p, s) == Len(p) <= Len(s) /\ Take(s, Len(p)) = p
 
+\* some sequence enumerating a finite set (any order)
+RECURSIVE SetToSeqAny(_)
+SetToSeqAny(S) == IF S = {} THEN << >> ELSE LET x == CHOOSE y \in S : TRUE IN << x >> \o SetToSeqAny(S \ {x})
+
 Max(a, b) == IF a > b THEN a ELSE b
 Min(a, b) == IF a < b THEN a ELSE b
 
